@@ -37,7 +37,8 @@ theorem AT.ofInv (hI : Inv false s) (hB : BInv s) : AT s.tree := ⟨hI.tree, W.o
 
 theorem bstep_keep (hB : BInv s) (hph : BodyPhase s) (h1 : s.mode ≠ .text) (h2 : s.mode ≠ .inTableText)
     (hk : Keeps s.tree s'.tree) (hm : ModeRel s s') (hform : FormRel s s')
-    (hfo : s'.framesetOk = s.framesetOk ∨ s'.framesetOk = false) : BStep s s' := by
+    (hfo : s'.framesetOk = s.framesetOk ∨ s'.framesetOk = false)
+    (htxt : s'.mode = .text → ∃ e r, s'.tree.stack = e :: r ∧ e.isAnchor = false) : BStep s s' := by
   have he := effMode_eq h1 h2
   obtain ⟨hp1, hp2⟩ := hph
   rw [he] at hp1 hp2
@@ -50,7 +51,7 @@ theorem bstep_keep (hB : BInv s) (hph : BodyPhase s) (h1 : s.mode ≠ .text) (h2
     · rcases e2 with e2 | e2 | e2 <;>
         (have : effMode s' = s'.mode := by simp [effMode, e2]
          rw [this, e2, e1]; simp [modeAnchors, preBody, framesetModes])
-  refine ⟨⟨⟨?_, ?_, ?_⟩, ?_⟩, ?_, ⟨hanch.2.1, hanch.2.2⟩⟩
+  refine ⟨⟨⟨?_, ?_, ?_⟩, ?_, htxt⟩, ?_, ⟨hanch.2.1, hanch.2.2⟩⟩
   · rw [hk]; exact hB.ba.w
   · rw [hk]; exact hB.ba.bottom
   · have := hB.ba.anch
@@ -76,12 +77,14 @@ macro_rules
     | contradiction
     | (exfalso; simp_all; done)
     | (show BStep _ _; with_reducible exact bstep_same $hB $hph)
-    | (show BStep _ _; refine bstep_keep $hB $hph $h1 $h2 ?_ ?_ ?_ ?_
+    | (show BStep _ _; refine bstep_keep $hB $hph $h1 $h2 ?_ ?_ ?_ ?_ ?_
        · ((try dsimp only [onTree_tree]); keeps_ok $hAT)
        · first | exact Or.inl ⟨rfl, rfl⟩ | exact Or.inr (Or.inl ⟨rfl, rfl⟩)
        · first | exact Or.inl rfl | exact Or.inr (Or.inl rfl)
                | (refine Or.inr (Or.inr ⟨_, rfl, ?_⟩); simp [El.isAnchor, El.isHtmlIn, anchorNames, Name.isIn])
-       · first | exact Or.inl rfl | exact Or.inr rfl))
+       · first | exact Or.inl rfl | exact Or.inr rfl
+       · first | (intro h; exact absurd h $h1)
+               | (intro _; exact ⟨_, _, rfl, by simp [El.isAnchor, El.isHtmlIn, anchorNames, Name.isIn]⟩)))
 
 /-! ### removing a non-anchor element from anywhere in the stack -/
 
@@ -185,7 +188,7 @@ theorem bstep_filter (hB : BInv s) (hph : BodyPhase s) (h1 : s.mode ≠ .text) (
     (hfo : s'.framesetOk = s.framesetOk ∨ s'.framesetOk = false) : BStep s s' := by
   have he := effMode_eq h1 h2
   have he' : effMode s' = effMode s := by simp [effMode, hm.1, hm.2]
-  refine ⟨⟨?_, ?_⟩, ?_, ?_⟩
+  refine ⟨⟨?_, ?_, fun h => absurd (hm.1 ▸ h) h1⟩, ?_, ?_⟩
   · rw [he', hk]
     exact hB.ba.filter x hx (anchorSuffix_head_anchor _)
   · intro f hf
